@@ -42,17 +42,17 @@ func ruleCheckValue(c *Ctx) {
 			// the drawn check character: getChecksum searches the table for a value; that value, seen in
 			// this calling context, is checksumValue(X)#0 - whether getChecksum computes it from X itself
 			// or receives it
-			gcFn := c.P.Func("code39.getChecksum")
+			gcFn := checkCharFunc(c, "code39")
 			for _, site := range c.P.deepCallsTo(fn, gcFn) {
 				call := site.Ins.(*ssa.Call)
-				sv := code39SearchedValue(c, gcFn)
+				sv, sub := code39SearchedValueDeep(c, gcFn)
 				if sv == nil {
 					c.Undecided(R, "code39.EncodeWithColor/check-char-subject", call.Pos(), "getChecksum does not select a character by a value")
 					continue
 				}
 				n.NoInline["code39.checksumValue"] = true
 				saved := n.Ctx
-				n.Ctx = append(append([]ssa.CallInstruction{}, site.Path...), call)
+				n.Ctx = append(append(append([]ssa.CallInstruction{}, site.Path...), call), sub.Path...)
 				got := n.Norm(sv).String()
 				n.Ctx = saved
 				c.Check(R, "code39.EncodeWithColor/check-char-subject", call.Pos(), got == "call:code39.checksumValue(X)#0", "the character of value checksumValue(X)#0", got)
@@ -105,8 +105,41 @@ func ruleCheckValue(c *Ctx) {
 			}
 		}
 	}
-	if fn := c.theFunc(R, "code39.getChecksum"); fn != nil {
-		sumV := code39SearchedValue(c, fn)
+	gcFn := checkCharFunc(c, "code39")
+	if gcFn == nil {
+		c.Anchor(R, "code39.getChecksum", "function not found")
+	}
+	if fn := gcFn; fn != nil {
+		c.Fn(c.P.FuncName(fn))
+		sumV, sub := code39SearchedValueDeep(c, fn)
+		outer := fn
+		if sumV != nil && sub.Fn != nil {
+			fn = sub.Fn // the function that contains the search
+			c.Fn(c.P.FuncName(fn))
+		}
+		// the result of the search is handed up unchanged to the function EncodeWithColor calls
+		forwarded := true
+		for k := len(sub.Path) - 1; k >= 0 && sumV != nil; k-- {
+			cv := sub.Path[k].Value()
+			G := sub.Path[k].Parent()
+			okF := false
+			for _, ret := range returnsOf(G) {
+				r := ret.Results[0]
+				if cvt, isCv := r.(*ssa.Convert); isCv {
+					r = cvt.X
+				}
+				if ex, isEx := r.(*ssa.Extract); isEx && ex.Index == 0 {
+					r = ex.Tuple
+				}
+				if r == ssa.Value(cv) && cv != nil {
+					okF = true
+				}
+			}
+			if !okF {
+				forwarded = false
+			}
+		}
+		_ = outer
 		c.Check(R, "code39.getChecksum/value-source", fn.Pos(), sumV != nil, "selects the character by a check value (judged in its calling context above)", fmt.Sprint(sumV != nil))
 		// the character returned is the one whose table value is that sum
 		{
@@ -144,7 +177,11 @@ func ruleCheckValue(c *Ctx) {
 							return
 						}
 						for _, ret := range returnsOf(fn) {
-							if cv, isCv := ret.Results[0].(*ssa.Convert); isCv && cv.X == keyV {
+							r0 := ret.Results[0]
+							if cv, isCv := r0.(*ssa.Convert); isCv {
+								r0 = cv.X
+							}
+							if r0 == keyV && keyV != nil && forwarded {
 								if imp, _, _ := CondRelation(n.ReachCond(fn, bo.Block(), ret.Block()), n.CondOf(bo)); imp {
 									good, how = true, "range over encodeTable, key returned when value == sum"
 								}
@@ -346,13 +383,27 @@ func ctorFields(n *Normer, fn *ssa.Function, depth int) map[string]string {
 // code39SearchedValue: the value by which code39.getChecksum selects the check character: the
 // operand compared with a table entry's value in the search, or the index into an alphabet string.
 func code39SearchedValue(c *Ctx, fn *ssa.Function) ssa.Value {
+	v, _ := code39SearchedValueDeep(c, fn)
+	return v
+}
+
+// code39SearchedValueDeep: the same, also when the search itself lives in an unexported helper of fn;
+// the site tells where (function and call path from fn).
+func code39SearchedValueDeep(c *Ctx, fn *ssa.Function) (ssa.Value, DeepSite) {
 	if fn == nil {
-		return nil
+		return nil, DeepSite{}
 	}
 	n := NewNormer(c.P)
 	var out ssa.Value
-	eachInstr(fn, func(b *ssa.BasicBlock, ins ssa.Instruction) {
-		switch x := ins.(type) {
+	var at DeepSite
+	c.P.deepEach(fn, 2, func(s DeepSite) {
+		before := out
+		defer func() {
+			if out != before {
+				at = s
+			}
+		}()
+		switch x := s.Ins.(type) {
 		case *ssa.BinOp:
 			if x.Op != token.EQL {
 				return
@@ -378,5 +429,42 @@ func code39SearchedValue(c *Ctx, fn *ssa.Function) ssa.Value {
 			}
 		}
 	})
-	return out
+	return out, at
+}
+
+// checkCharFunc: the function of package pk that supplies the check character(s): getChecksum, or -
+// when it was renamed or given another signature - the function called from EncodeWithColor in (or
+// below) which a table entry is selected by comparing its value with the check value.
+func checkCharFunc(c *Ctx, pk string) *ssa.Function {
+	if f := c.P.Func(pk + ".getChecksum"); f != nil {
+		return f
+	}
+	enc := c.P.Func(pk + ".EncodeWithColor")
+	if enc == nil {
+		return nil
+	}
+	n := NewNormer(c.P)
+	cands := map[*ssa.Function]bool{}
+	c.P.deepEach(enc, 3, func(s DeepSite) {
+		bo, ok := s.Ins.(*ssa.BinOp)
+		if !ok || bo.Op != token.EQL || len(s.Path) == 0 {
+			return
+		}
+		for _, pair := range [][2]ssa.Value{{bo.X, bo.Y}, {bo.Y, bo.X}} {
+			if _, isConst := pair[1].(*ssa.Const); isConst || !isIntType(pair[1].Type()) {
+				continue
+			}
+			if strings.HasSuffix(n.Norm(pair[0]).String(), ".value") {
+				if f := s.Path[0].Common().StaticCallee(); f != nil {
+					cands[f] = true
+				}
+			}
+		}
+	})
+	if len(cands) == 1 {
+		for f := range cands {
+			return f
+		}
+	}
+	return nil
 }
